@@ -68,6 +68,7 @@ def cases(tier, seed):
                     'gs': int(rs.randint(1 << 30)), 'nspy': 4 if thorough else 2, 'rs': seed + t})
     for n in (1, 2, 5):   # boundary: the empty digraph is a graphical pair too
         out.append({'f': 'makerandCIJdegreesfixed', 'n': n, 'p': 0.0, 'gs': 0, 'nspy': 1, 'rs': seed, 'empty': True})
+    out.append({'f': 'maketoeplitzCIJ', 'n': 400, 'k': 100100, 's': 1000.0, 'nspy': 3 if tier == 'thorough' else 2, 'rs': seed, 'nohostile': True})
     return out
 
 
@@ -79,7 +80,7 @@ def run(case, bct, REC):
     f = case['f']
     fn = getattr(bct, f)
     descrs = [{'kind': 'spy', 'seed': case['rs'] + i} for i in range(case['nspy'])] + \
-             [{'kind': 'hostile', 'policy': p, 'seed': case['rs']} for p in POL]
+             [{'kind': 'hostile', 'policy': p, 'seed': case['rs']} for p in (() if case.get('nohostile') else POL)]
     if f == 'makerandCIJdegreesfixed':
         A = G.er(case['n'], case['p'], True, case['gs'])
         inv = A.sum(axis=0).astype(int)
